@@ -31,7 +31,7 @@ def strategy_(draw):
         spec['cfg'] = dict(spec['cfg'], n_runners_up=draw(st.integers(2, 4)), bootstrap_iteration=12,
                            bootstrap_factor=draw(st.sampled_from([0.33, 0.5])), bootstrap_factor_lookup=None)
         return spec
-    return draw(gen.map_cases(max_cells=6, mappers='often'))
+    return draw(gen.map_cases(max_cells=8, mappers='often'))
 
 
 def strategy(tier):
@@ -114,6 +114,9 @@ def check(spec):
         raise Violation('csv_header', {'got': header, 'want': want_header})
     if len(body) != len(res):
         raise Violation('csv_row_count', {'rows': len(body), 'cells': len(res)})
+    want_ids = [str(c) for c in spec['query']['cells']]
+    if [row[0] for row in body] != want_ids:
+        raise Violation('csv_rows_not_in_query_order', {'got': [row[0] for row in body][:40], 'want': want_ids[:40]})
     for row, r in zip(body, res):
         want = [r['cell_id']]
         for lv in h:
